@@ -201,6 +201,20 @@ def check(run):
             safe, why = None, "remap right-hand side %s not understood" % show(rhs)
         if not has_sub:
             run.ob("R18.1", "cdns_merge:remap-lookup", safe, mg, node.get("l", 0), why)
+        # which half of the looked-up pair the block gets: `it->second` is the index in the output, `it->first` the key the
+        # lookup was made with (the block's old index: the "remap" would leave every block as it was)
+        halves = set()
+        for x in ir.walk(rhs):
+            if x.get("k") == "Member" and x.get("n") in ("first", "second"):
+                b_ = unwrap_all_casts(x.get("base"))
+                if isinstance(b_, dict) and ((b_.get("k") == "OpCall" and b_.get("op") in ("->", "*") and any(b_ is y for y in iters + [z for z in ir.walk(rhs) if z.get("k") == "OpCall" and z.get("op") == "*"]))):
+                    halves.add(x["n"])
+        if halves:
+            okh = halves == {"second"}
+            run.ob("R18.2", "cdns_merge:remap-takes-mapped-value", okh, mg, node.get("l", 0),
+                   "the block gets the mapped value (->second) of the looked-up pair" if okh else
+                   "the block's parameter index is set from ->first of the looked-up pair, which is the key the lookup was made with - the "
+                   "index the block had in its source file: no block is remapped and blocks of later inputs refer to parameters of the first")
     run.floor("R18.1", 1, "remapping reads in pass 2")
 
     # ---------------- R18.2 remap before write
